@@ -51,7 +51,10 @@ class LindbladForm(RedfieldRelaxationTensor):
         if sbi is None:
             KK = numpy.zeros((1, Na, Na), dtype=REAL)
         else:
-            KK = sbi.KK
+            # a copy: the operators are basis managed (transformed in place)
+            # and must not be shared with the interaction object or with
+            # other forms built from it
+            KK = sbi.KK.copy()
             
         self._post_implementation(KK, llm, lld)
 
